@@ -3,6 +3,9 @@ import Jap.Core.LinksTree
 import Jap.Lemmas.Links
 import Jap.Lemmas.LinksTree
 import Jap.Gen.LinksOrder
+import Jap.Gen.LinksSrc
+import Jap.Core.LinksHist
+import Jap.Lemmas.LinksHist
 /-!
 # C15 — A linked argument always equals the function of its sources (links applied on parse)
 
@@ -580,5 +583,277 @@ open Jap.Gen.LinksOrder in
 theorem C15_code_redirect_and_strip_filter :
     optionRedirect = ["for key in self.target[1].option_strings", "parser._option_string_actions[key] = self"] ∧
     stripFilter = ["isinstance(a, ActionLink)", "isinstance(a, ActionTypeHint) and hasattr(a, 'sub_add_kwargs')"] := by decide
+
+
+/-! ## ordered link sets: the guard `nonNested` weakened to what the sequential pass needs -/
+
+/-- The invariant under the weaker, order-aware guard `fwdOK` (decidable; Lemmas/LinksHist): no link writes into its own
+    sources and no link registered LATER writes into / above the target or the sources of a link registered EARLIER.
+    Nested keys are allowed when the write comes first: `a --> g.p` registered before `fsum(g) --> b`, or before
+    `g --> w`.  Then, in every successfully parsed configuration, every link has `target = F(FINAL sources)` at every
+    place that holds the target.  (`nonNested` implies `fwdOK` for accepted link sets: `C15_nonNested_is_ordered`;
+    the other registration order is the open finding, `C15_nested_chain_counterexample`.) -/
+theorem C15_invariant_ordered (E : Env) (p0 p : Parser) (reqs : List LinkReq) (h : Accepted p0 reqs p)
+    (ho : fwdOK p.links = true)
+    (inputs : List Input) (cfg : KV) (hp : parse E p inputs = .ok cfg) :
+    ∀ l ∈ p.links, ∀ args, argsOf cfg l.sources = some args →
+      ∃ v, linkValue E l args = .ok v ∧ (∀ w ∈ targetValues l cfg, w = v) ∧
+        (l.kind = .plain → getK l.target cfg = some v) := by
+  obtain ⟨c0, _, hc⟩ := parse_ok E p inputs cfg hp
+  obtain ⟨ha, _, _⟩ := parseCommon_ok E p c0 cfg hc
+  intro l hl args hargs
+  exact apply_inv_fwd E p.links c0 cfg ha ho l hl (h.inv.wf l hl).1 args hargs
+
+/-- the new guard is weaker: every accepted link set without nested keys is ordered, whatever the registration order -/
+theorem C15_nonNested_is_ordered (p0 p : Parser) (reqs : List LinkReq) (h : Accepted p0 reqs p)
+    (hn : nonNested p.links = true) : fwdOK p.links = true := by
+  obtain ⟨hST, hTT⟩ := indep_of_unchained p.links h.inv.noChain h.inv.noSelf hn
+  exact fwdOK_of_indep p.links hST hTT
+
+/-- the two links of `C15_nested_chain_counterexample` registered in the OTHER order (`a --> g.p` first, then
+    `fsum(g) --> b`): accepted, nested (`nonNested` fails), ordered (`fwdOK` holds), and `--a=100` gives `g.p = 100`,
+    `b = 104 = fsum(final g)`; in the order of the counterexample `fwdOK` fails -/
+def reqsNestFwd : List LinkReq := [⟨[key "a"], [], (key2 "g" "p"), .none⟩, ⟨[key "g"], [], key "b", some 1⟩]
+
+example :
+    Accepted p0Nest reqsNestFwd (parserOf p0Nest reqsNestFwd) ∧
+    nonNested (parserOf p0Nest reqsNestFwd).links = false ∧ fwdOK (parserOf p0Nest reqsNestFwd).links = true ∧
+    fwdOK (parserOf p0Nest reqsNest).links = false ∧
+    parse Ew (parserOf p0Nest reqsNestFwd)
+        [⟨.dflt, key "a", .atom 1⟩, ⟨.dflt, key "b", .atom 0⟩, ⟨.dflt, (key2 "g" "p"), .atom 3⟩, ⟨.dflt, (key2 "g" "q"), .atom 4⟩,
+         ⟨.argv, key "a", .atom 100⟩]
+      = .ok [(⟨false, "a"⟩, .atom 100), (⟨false, "g"⟩, .ns [(⟨false, "q"⟩, .atom 4), (⟨false, "p"⟩, .atom 100)]),
+             (⟨false, "b"⟩, .atom 104)] :=
+  ⟨⟨rfl, by decide, by decide, by decide, by decide, rfl⟩, by decide, by decide, by decide, rfl⟩
+
+/-! ## histories: one parser object, `link_arguments` calls and parses interleaved -/
+
+/-- what `Accepted` asks of the parser before the first `link_arguments` call -/
+structure Fresh (p0 : Parser) : Prop where
+  fresh : p0.links = []
+  dests : ∀ a ∈ p0.actions, a.dest ≠ []
+  noLinkActs : ∀ a ∈ p0.actions, a.kind ≠ .link
+  opts : ∀ oa ∈ p0.optActs, oa.2 ∈ p0.actions
+  optsNodup : (p0.optActs.map (·.1)).Nodup
+
+/-- After ANY history (accepted and refused `link_arguments` calls, parses through any entry point, in any order and
+    number, the world `Es e` changing between them) the parser object is the one built by the accepted calls alone:
+    refused calls and parses leave no trace. -/
+theorem C15_history_parser (Es : Nat → Env) (p0 : Parser) (hf : Fresh p0) (ops : List Op) :
+    Accepted p0 (acceptedReqs p0 ops) (stateAfter Es p0 ops) ∧
+    ∀ Es', stateAfter Es p0 ops = stateAfter Es' p0 (linkOps ops) :=
+  ⟨⟨hf.fresh, hf.dests, hf.noLinkActs, hf.opts, hf.optsNodup, addLinks_acceptedReqs Es ops p0⟩,
+   fun Es' => stateAfter_linkOps Es Es' ops p0⟩
+
+/-- THE INVARIANT HOLDS AFTER EVERY PARSE OF EVERY HISTORY.  Take any history `pre ++ parse e inputs :: post` on one
+    parser object.  (1) What the caller gets from that parse is `parse (Es e) p inputs` for `p` = the parser built by
+    the calls accepted before it: it does not depend on the earlier parses, on their inputs, nor on what the compute
+    functions returned then.  (2) The parse leaves the parser as it is.  (3) `p` is an accepted link set, and
+    (4) when the parse succeeds, every link registered so far has `target = F(final sources)` with `F` the compute
+    function as it behaves NOW (`Es e`), at every place that holds the target (guard: the ordered link sets of
+    `C15_invariant_ordered`, which include all link sets without nested keys). -/
+theorem C15_history_invariant (Es : Nat → Env) (p0 : Parser) (hf : Fresh p0) (pre post : List Op) (e : Nat)
+    (inputs : List Input) :
+    (runOps Es p0 (pre ++ .parse e inputs :: post))[pre.length]? =
+      some (.parsed (parse (Es e) (stateAfter Es p0 pre) inputs)) ∧
+    stateAfter Es p0 (pre ++ [.parse e inputs]) = stateAfter Es p0 pre ∧
+    Accepted p0 (acceptedReqs p0 pre) (stateAfter Es p0 pre) ∧
+    (fwdOK (stateAfter Es p0 pre).links = true →
+      ∀ cfg, parse (Es e) (stateAfter Es p0 pre) inputs = .ok cfg →
+        ∀ l ∈ (stateAfter Es p0 pre).links, ∀ args, argsOf cfg l.sources = some args →
+          ∃ v, linkValue (Es e) l args = .ok v ∧ (∀ w ∈ targetValues l cfg, w = v) ∧
+            (l.kind = .plain → getK l.target cfg = some v)) := by
+  have hacc := (C15_history_parser Es p0 hf pre).1
+  refine ⟨runOps_at Es pre post _ p0, ?_, hacc, fun hn cfg hp => ?_⟩
+  · rw [stateAfter_append]; rfl
+  · exact C15_invariant_ordered (Es e) p0 _ _ hacc hn inputs cfg hp
+
+/-- NO HIDDEN STATE: the target is a function of the sources' final values and of nothing else.  Two successful parses
+    of the same parser — anywhere in any histories, through any channels, with anything supplied for the target, with
+    any other arguments differing — in which the sources of a link hold the same values (the same in the model's
+    sense: `1`, `1.0` and `True` are three different values, see Drv/Links `tyName`) give the same value at every
+    place of the target. -/
+theorem C15_target_is_a_function_of_the_sources (E : Env) (p0 p : Parser) (reqs : List LinkReq)
+    (h : Accepted p0 reqs p) (hn : fwdOK p.links = true) (in1 in2 : List Input) (cfg1 cfg2 : KV)
+    (hp1 : parse E p in1 = .ok cfg1) (hp2 : parse E p in2 = .ok cfg2) :
+    ∀ l ∈ p.links, ∀ args, argsOf cfg1 l.sources = some args → argsOf cfg2 l.sources = some args →
+      (∀ w1 ∈ targetValues l cfg1, ∀ w2 ∈ targetValues l cfg2, w1 = w2) ∧
+      (l.kind = .plain → getK l.target cfg1 = getK l.target cfg2) := by
+  intro l hl args ha1 ha2
+  obtain ⟨v1, hv1, hw1, hpl1⟩ := C15_invariant_ordered E p0 p reqs h hn in1 cfg1 hp1 l hl args ha1
+  obtain ⟨v2, hv2, hw2, hpl2⟩ := C15_invariant_ordered E p0 p reqs h hn in2 cfg2 hp2 l hl args ha2
+  rw [hv1] at hv2
+  cases hv2
+  exact ⟨fun w1 h1 w2 h2 => (hw1 w1 h1).trans (hw2 w2 h2).symm, fun hk => (hpl1 hk).trans (hpl2 hk).symm⟩
+
+/-- compute functions of the history witnesses in the world `e`: 0 = the type of the argument (1 for an int, 2 for
+    the wire form of `True`/`False`), 1 = a + e (reads state outside its arguments) -/
+def FwAt (e : Nat) : Nat → List V → Option V
+  | 0, [.atom _] => some (.atom 1)
+  | 0, [.dct _] => some (.atom 2)
+  | 1, [.atom a] => some (.atom (a + e))
+  | _, _ => .none
+
+def EsW (e : Nat) : Env := { F := FwAt e, chk := fun _ _ => true, valid := fun _ => true }
+
+def p0Hist : Parser := { actions := [arg (key "a"), arg (key "b"), arg (key "t"), arg (key "w")], required := [], links := [] }
+
+/-- the wire form of `True` -/
+def vTrue : V := .dct [(⟨false, "$b"⟩, .atom 1)]
+
+def histW : List Op :=
+  [.link ⟨[key "w"], [], key "t", some 0⟩,
+   .parse 0 [⟨.dflt, key "a", .atom 1⟩, ⟨.argv, key "w", .atom 1⟩],
+   .link ⟨[key "t"], [], key "a", .none⟩,                        -- refused: `t` is a target
+   .parse 0 [⟨.dflt, key "a", .atom 1⟩, ⟨.config, key "w", vTrue⟩, ⟨.config, key "t", .atom 9⟩],
+   .link ⟨[key "a"], [], key "b", some 1⟩,                       -- a link added after two parses
+   .parse 0 [⟨.dflt, key "a", .atom 1⟩, ⟨.env, key "w", .atom 1⟩],
+   .parse 3 [⟨.dflt, key "a", .atom 1⟩, ⟨.env, key "w", .atom 1⟩]]
+
+/-- a history: `w = 1` then `w = True` (equal for Python's `==`, not the same value) give `t = 1` then `t = 2`; the
+    refused call changes nothing; the late link applies from the next parse on; the same inputs in another world
+    (`EPOCH` 0 → 3) give `b = 1` then `b = 4` -/
+example : Fresh p0Hist ∧
+    runOps EsW p0Hist histW =
+      [.linked (.ok (parserOf p0Hist [⟨[key "w"], [], key "t", some 0⟩])),
+       .parsed (.ok [(sk "a", .atom 1), (sk "w", .atom 1), (sk "t", .atom 1)]),
+       .linked (.error .sourceIsTarget),
+       .parsed (.ok [(sk "a", .atom 1), (sk "w", vTrue), (sk "t", .atom 2)]),
+       .linked (.ok (parserOf p0Hist [⟨[key "w"], [], key "t", some 0⟩, ⟨[key "a"], [], key "b", some 1⟩])),
+       .parsed (.ok [(sk "a", .atom 1), (sk "w", .atom 1), (sk "t", .atom 1), (sk "b", .atom 1)]),
+       .parsed (.ok [(sk "a", .atom 1), (sk "w", .atom 1), (sk "t", .atom 1), (sk "b", .atom 4)])] ∧
+    acceptedReqs p0Hist histW = [⟨[key "w"], [], key "t", some 0⟩, ⟨[key "a"], [], key "b", some 1⟩] ∧
+    nonNested (stateAfter EsW p0Hist histW).links = true ∧ fwdOK (stateAfter EsW p0Hist histW).links = true :=
+  ⟨⟨rfl, by decide, by decide, by decide, by decide⟩, rfl, rfl, by decide, by decide⟩
+
+/-! ## the statements of the functions the model transcribes (regenerated from `_link_arguments.py`)
+
+`Jap.Gen.LinksSrc` is regenerated from /repo on every run (harness/extractors/links_src.py: one string per statement,
+docstrings / comments / imports / debug logging dropped).  Each theorem states the text the model was written against; an
+edit of any of these statements makes the theorem fail, i.e. breaks the tie and triggers the boosted failing-input search. -/
+
+/-- `ActionLink._initial_input_checks` as transcribed by the five tests at the head of `addLink` (whole keys compared; every source position; the link's own sources) -/
+theorem tie_initial_input_checks : Jap.Gen.LinksSrc.initialInputChecks = [
+  "def _initial_input_checks(self, source, target):",
+  "  if self.apply_on not in {'parse', 'instantiate'}:",
+  "    raise ValueError(\"apply_on must be 'parse' or 'instantiate'.\")",
+  "  if self.compute_fn is None and (not (isinstance(source, str) or len(source) == 1)):",
+  "    raise ValueError('Multiple source keys requires a compute function.')",
+  "  if self.apply_on == 'parse':",
+  "    link_actions = self.parser._links_group._group_actions",
+  "    existing_targets = {a.target[0] for a in link_actions}",
+  "    if target in existing_targets:",
+  "      raise ValueError(f'Target \"{target}\" is already a target of another link.')",
+  "    for src in [source] if isinstance(source, str) else source:",
+  "      if src in existing_targets:",
+  "        raise ValueError(f'Source \"{src}\" not allowed since it is the target of another link.')",
+  "    if target in ([source] if isinstance(source, str) else source):",
+  "      raise ValueError(f'Target \"{target}\" not allowed since it is one of the sources of the link.')",
+  "    existing_sources = {s[0] for a in link_actions for s in a.source if a.apply_on == 'parse'}",
+  "    if target in existing_sources:",
+  "      raise ValueError(f'Target \"{target}\" not allowed since it is the source of another link.')"] := rfl
+
+/-- `ActionLink.__call__` as transcribed by `actionCall`: the option of a replaced target raises unconditionally -/
+theorem tie_link_call : Jap.Gen.LinksSrc.linkCall = [
+  "def __call__(self, *args, **kwargs):",
+  "  source = ', '.join((s[0] for s in self.source))",
+  "  raise TypeError(f'Linked \"{self.target[0]}\" must be given via \"{source}\".')"] := rfl
+
+/-- `ActionLink.call_compute_fn` as transcribed by the `some n` branch of `linkValue`: the function is applied to the arguments of THIS call on every call (nothing is remembered between calls, so `stepOp` has no link state), any exception becomes the ValueError -/
+theorem tie_call_compute_fn : Jap.Gen.LinksSrc.callComputeFn = [
+  "def call_compute_fn(self, args):",
+  "  try:",
+  "    assert callable(self.compute_fn)",
+  "    return self.compute_fn(*args)",
+  "  except Exception as ex:",
+  "    link = self.option_strings[0]",
+  "    args = ', '.join((str(a) for a in args))",
+  "    raise ValueError(f\"Call to compute_fn of link '{link}' with args ({args}) failed: {ex}\") from ex"] := rfl
+
+/-- `ActionLink.apply_parsing_links` as transcribed by `applyTree` (guards, recursion), `readSources` (skip / check / read per source), `coerceArg` (both namespace-to-dict conversions), `linkValue` (`value = args[0]`: the source value ITSELF, no copy) and `applyLink` / `applyParsingLinks` (one pass in the order of `get_link_actions`) -/
+theorem tie_apply_parsing_links : Jap.Gen.LinksSrc.applyParsingLinks = [
+  "def apply_parsing_links(parser: 'ArgumentParser', cfg: Namespace):",
+  "  if apply_config_skip.get() or _ActionPrintConfig.is_print_config_requested(parser):",
+  "    return",
+  "  subcommand, subparser = _ActionSubCommands.get_subcommand(parser, cfg, fail_no_subcommand=False)",
+  "  if subcommand and subcommand in cfg:",
+  "    ActionLink.apply_parsing_links(subparser, cfg[subcommand])",
+  "  if not hasattr(parser, '_links_group'):",
+  "    return",
+  "  for action in get_link_actions(parser, 'parse'):",
+  "    args = []",
+  "    skip_link = False",
+  "    for (source_key, source_action) in action.source:",
+  "      if ActionTypeHint.is_subclass_typehint(source_action[0]) and source_key not in cfg:",
+  "        skip_link = True",
+  "        break",
+  "      for source_action_n in [a for a in source_action if a.dest in cfg]:",
+  "        parser._check_value_key(source_action_n, cfg[source_action_n.dest], source_action_n.dest, None)",
+  "      args.append(cfg[source_key])",
+  "    if skip_link:",
+  "      continue",
+  "    if action.compute_fn is None:",
+  "      value = args[0]",
+  "      target_key, target_action = action.target",
+  "      if isinstance(value, Namespace) and isinstance(target_action, ActionTypeHint):",
+  "        same_key = target_key == target_action.dest",
+  "        if same_key and target_action.is_mapping_typehint(target_action._typehint) or target_action.is_init_arg_mapping_typehint(target_key, cfg):",
+  "          value = value.as_dict()",
+  "    else:",
+  "      params = get_signature_parameters(action.compute_fn)",
+  "      for (n, param) in enumerate(params):",
+  "        if n < len(args) and isinstance(args[n], Namespace) and ActionTypeHint.is_mapping_typehint(param.annotation):",
+  "          args[n] = args[n].as_dict()",
+  "      value = action.call_compute_fn(args)",
+  "    ActionLink.set_target_value(action, value, cfg, parser.logger)"] := rfl
+
+/-- `ActionLink.set_target_value` as transcribed by `setTargetValue` -/
+theorem tie_set_target_value : Jap.Gen.LinksSrc.setTargetValue = [
+  "def set_target_value(action: 'ActionLink', value: Any, cfg: Namespace, logger):",
+  "  target_key, target_action = action.target",
+  "  assert target_action",
+  "  if ActionTypeHint.is_subclass_typehint(target_action, all_subtypes=False, also_lists=True):",
+  "    if target_key == target_action.dest:",
+  "      target_action._check_type(value)",
+  "    else:",
+  "      parent = cfg.get(target_action.dest)",
+  "      child_key = target_key[len(target_action.dest) + 1:]",
+  "      if isinstance(parent, list) and any((isinstance(i, Namespace) and child_key in i for i in parent)):",
+  "        for item in parent:",
+  "          if child_key in item:",
+  "            item[child_key] = value",
+  "        return",
+  "      if target_key not in cfg:",
+  "        return",
+  "  cfg[target_key] = value"] := rfl
+
+/-- `ActionLink.strip_link_target_keys` as transcribed by `delTargetKey`, `stripKeys` / `stripLinkTargetKeys` and the recursion of `stripTree` -/
+theorem tie_strip_link_target_keys : Jap.Gen.LinksSrc.stripLinkTargetKeys = [
+  "def strip_link_target_keys(parser, cfg):",
+  "  def del_target_key(target_key):",
+  "    cfg.pop(target_key, None)",
+  "    if '.' not in target_key:",
+  "      return",
+  "    parent_key, _ = split_key_leaf(target_key)",
+  "    if parent_key in cfg and (not cfg[parent_key]):",
+  "      del cfg[parent_key]",
+  "  for action in [a for a in parser._actions if isinstance(a, ActionLink)]:",
+  "    del_target_key(action.target[0])",
+  "  for action in [a for a in parser._actions if isinstance(a, ActionTypeHint) and hasattr(a, 'sub_add_kwargs')]:",
+  "    for key in action.sub_add_kwargs.get('linked_targets', []):",
+  "      del_target_key(f'{action.dest}.init_args.{key}')",
+  "  with _ActionSubCommands.not_single_subcommand():",
+  "    subcommands, subparsers = _ActionSubCommands.get_subcommands(parser, cfg)",
+  "  if subcommands is not None:",
+  "    for (num, subcommand) in enumerate(subcommands):",
+  "      if subcommand in cfg:",
+  "        ActionLink.strip_link_target_keys(subparsers[num], cfg[subcommand])"] := rfl
+
+/-- `get_link_actions` as transcribed by `Parser.links` (registration order, filtered by `apply_on`) -/
+theorem tie_get_link_actions : Jap.Gen.LinksSrc.getLinkActions = [
+  "def get_link_actions(parser: 'ArgumentParser', apply_on: str, skip=set()):",
+  "  if not hasattr(parser, '_links_group'):",
+  "    return []",
+  "  return [a for a in parser._links_group._group_actions if a.apply_on == apply_on and a not in skip]"] := rfl
 
 end Jap.Props.C15
